@@ -319,6 +319,77 @@ def ob_pure(mod):
 
 
 # ------------------------------------------------------------------ bounded / float
+@obligation("modulator/rejected_reconfiguration_is_atomic", kind="exhaustive",
+            desc="exceptional postcondition: for every modulator class (BPSK, QPSK, PSK 4/8/16, QAM 4/16/64) and a family of re-configuration "
+                 "calls a caller may get wrong (setConstellation with 3 / 6 / 9 / 0 points, with a list, with a 2-D table; setPhaseOffset with a "
+                 "string / None / an array of the wrong size): IF the call raises, the modulator is exactly as before - M, K, the emitted "
+                 "symbols and the SER / BER / PER / spectral-efficiency curves at several SNRs; IF it is accepted, M and K are those of the "
+                 "emitted table (M == number of symbols, 2^K == M when K is an integer)")
+def ob_rejected_reconfiguration():
+    from pyphysim.modulators import fundamental as f
+    mods = [("BPSK", lambda: f.BPSK()), ("QPSK", lambda: f.QPSK()), ("PSK4", lambda: f.PSK(4)), ("PSK8", lambda: f.PSK(8, 0.2)),
+            ("PSK16", lambda: f.PSK(16)), ("QAM4", lambda: f.QAM(4)), ("QAM16", lambda: f.QAM(16)), ("QAM64", lambda: f.QAM(64))]
+    ring = lambda n: np.exp(2j * np.pi * np.arange(n) / n)
+    calls = [("setConstellation", ring(3)), ("setConstellation", ring(6)), ("setConstellation", (np.arange(9) % 3 + 1j * (np.arange(9) // 3)) / 2.0),
+             ("setConstellation", np.array([], dtype=complex)), ("setConstellation", [1 + 0j, -1 + 0j]), ("setConstellation", ring(8).reshape(2, 4)),
+             ("setConstellation", None), ("setPhaseOffset", "pi/4"), ("setPhaseOffset", None), ("setPhaseOffset", np.array([0.1, 0.2, 0.3]))]
+
+    def cases():
+        for name, _ in mods:
+            for i in range(len(calls)):
+                yield {"modulator": name, "call": i}
+
+    def snapshot(o):
+        snr = np.array([-3.0, 0.0, 4.0, 9.0, 15.0])
+        lin = 10 ** (snr / 10)
+        out = {"M": o.M, "K": o.K, "symbols": np.array(o.symbols, dtype=complex, copy=True)}
+        for nm, fn in (("SER", lambda: o.calcTheoreticalSER(lin)), ("BER", lambda: o.calcTheoreticalBER(lin)),
+                       ("PER", lambda: o.calcTheoreticalPER(lin, 24)), ("SE", lambda: o.calcTheoreticalSpectralEfficiency(lin, 24)),
+                       ("emitted", lambda: o.modulate(np.arange(o.M)))):
+            try:
+                out[nm] = np.array(fn(), dtype=complex)
+            except Exception as e:
+                out[nm] = "raises " + type(e).__name__
+        return out
+
+    def same(a, b):
+        for k in a:
+            x, y = a[k], b[k]
+            if isinstance(x, np.ndarray) or isinstance(y, np.ndarray):
+                if not (isinstance(x, np.ndarray) and isinstance(y, np.ndarray) and x.shape == y.shape and np.array_equal(x, y)):
+                    return k
+            elif x != y:
+                return k
+        return None
+
+    def check(case):
+        o = dict(mods)[case["modulator"]]()
+        meth, arg = calls[case["call"]]
+        if not hasattr(o, meth):
+            return None
+        before = snapshot(o)
+        import warnings
+        try:
+            with warnings.catch_warnings():
+                warnings.simplefilter("ignore")
+                with np.errstate(all="ignore"):
+                    getattr(o, meth)(arg)
+            raised = None
+        except Exception as e:
+            raised = e
+        if raised is not None:
+            diff = same(before, snapshot(o))
+            if diff is not None:
+                return {"call": "%s(%s)" % (meth, repr(arg)[:60]), "raised": repr(raised)[:100],
+                        "but changed": diff, "before": repr(before[diff])[:120], "after": repr(snapshot(o)[diff])[:120]}
+            return None
+        n = int(np.size(o.symbols))
+        if o.M != n:
+            return {"call": "%s(%s)" % (meth, repr(arg)[:60]), "accepted, but M": o.M, "number of emitted symbols": n}
+        return None
+    return exhaustive(cases(), check)
+
+
 @obligation("float/reference_grid", kind="bounded", timeout=900,
             desc="binary64 behaviour on SNR grid -30..60 dB step 0.5 for all modulators/orders: SER equals the value implied by "
                  "the emitted constellation computed with a high-precision Q (rel 1e-9, also in the far tail), ranges, "
